@@ -18,6 +18,7 @@ LEVEL_TEXT = ("Parser-discipline rules on the MIR of parser.rs: (E7.w) the posit
 LEVEL_NOTE = ("Not decided: that the AST equals the written program for all layouts (a grammar-equivalence statement over all texts) and the "
               "numeric values of columns.  E7.l checks the capture point of locations, not every whitespace permutation.")
 LEVEL_TEXT += (" Also: (E7.a) the query text handed to tree-sitter is the untransformed source slice of the stanza's query followed by the internal full-match capture; (E7.n) numerals are the maximal run of ASCII digits at the position; (E7.x) skip_query's escape flag makes exactly the next character of a query string inert; (E7.q) parse_sequence compares the next character with the end marker before every element (empty and trailing-comma forms).")
+LEVEL_TEXT += (" (E7.f) a declaration keyword followed — after optional whitespace — by ':' is a field name of the next stanza's query, not a declaration.")
 
 POS_FIELDS = ("offset", "location", "chars")
 
